@@ -147,6 +147,77 @@ static void scenario(const std::string &scen, int run, Circuit base, const Coloq
       e.set("obs", obs).set("segs", segs).set("total", (long long)all.size()).set("nrows", (long long)base.rows().size());
       vt::emit(e);
     }
+  } else if (scen == "expand") {
+    // C18: cell expansion to a target density / by per-cell factors / expansion factors from a congestion map.
+    // All real-valued arguments are dyadic so that the contract can be evaluated exactly with integers.
+    vg::Rng r((uint64_t)run * 733 + 19);
+    for (int rep = 0; rep < 3; ++rep) {
+      Circuit a = base;
+      int m2 = (int)r.pick(std::vector<int>{0, 0, 1, 2, 3});       // rowSideMargin = m2 / 2 row heights
+      int p64 = (int)r.in(1, 63);                                  // target density / density cap = p64 / 64
+      Value before = vp::circuitToJson(a);
+      Value e = vt::ev("Expand");
+      e.set("run", run).set("m2", m2).set("p64", p64).set("before", before);
+      std::string outcome = "ok";
+      try {
+        if (rep == 0) {
+          int cap64 = (int)r.pick(std::vector<int>{64, 64, 6400, 32, 8, 128});
+          a.expandCellsToDensity(p64 / 64.0, m2 / 2.0, cap64 / 64.0);
+          e.set("kind", "density").set("cap64", cap64);
+        } else if (rep == 1) {
+          std::vector<float> f;
+          Value f4 = Value::array();
+          for (int i = 0; i < a.nbCells(); ++i) {
+            int q = (int)r.pick(std::vector<int>{4, 4, 5, 6, 8, 12, 16});
+            f.push_back(q / 4.0f);
+            f4.push(q);
+          }
+          double ret = a.expandCellsByFactor(f, p64 / 64.0, m2 / 2.0);
+          e.set("kind", "factor").set("f4", f4).set("ret1000", (long long)std::llround(std::min(ret, 1.0e6) * 1000.0));
+        } else {
+          Rectangle area = a.computePlacementArea();
+          std::vector<Circuit::CongestionRegion> map;
+          Value regs = Value::array();
+          int nr = (int)r.in(0, 5);
+          for (int k = 0; k < nr; ++k) {
+            int x0 = (int)r.in(area.minX - 5, area.maxX), y0 = (int)r.in(area.minY - 5, area.maxY);
+            Rectangle q(x0, x0 + (int)r.in(0, std::max(1, area.width())), y0, y0 + (int)r.in(0, std::max(1, area.height())));
+            int c4 = (int)r.pick(std::vector<int>{2, 4, 5, 6, 8, 12});   // congestion x 4
+            map.emplace_back(q, c4 / 4.0f);
+            regs.push(Value::object().set("x0", q.minX).set("x1", q.maxX).set("y0", q.minY).set("y1", q.maxY).set("c4", c4));
+          }
+          int fp4 = (int)r.pick(std::vector<int>{0, 0, 2, 4});
+          int pf = (int)r.in(1, 3);
+          std::vector<float> res = a.computeCellExpansion(map, fp4 / 4.0f, (float)pf);
+          Value r4 = Value::array();
+          for (float v : res) r4.push((long long)std::llround(v * 4.0));
+          bool exact = true;
+          for (float v : res)
+            if (v * 4.0f != std::floor(v * 4.0f)) exact = false;
+          e.set("kind", "congestion").set("regions", regs).set("fp4", fp4).set("pf", pf).set("res4", r4).set("exact", exact);
+        }
+      } catch (std::exception &ex) {
+        outcome = "error";
+      }
+      e.set("outcome", outcome).set("after", vp::circuitToJson(a));
+      vt::emit(e);
+    }
+  } else if (scen == "export") {
+    // C20: export the circuit with the real Circuit::exportIspd; the package's own reader re-reads it afterwards
+    Circuit a = base;
+    if (run % 3 == 0) {
+      // a placed circuit: legalized positions and orientations
+      try {
+        a.legalize(p);
+      } catch (std::exception &) {
+      }
+    }
+    std::string dir = args("exportdir", "/tmp");
+    std::string path = dir + "/c" + std::to_string(run);
+    a.exportIspd(path);
+    Value e = vt::ev("Export");
+    e.set("run", run).set("path", path).set("circ", vp::circuitToJson(a));
+    vt::emit(e);
   } else if (scen == "grid") {
     // C16: the capacity grid built from a circuit (free rows after the side margin), at the finest and coarsest views
     vg::Rng r((uint64_t)run * 313 + 11);
